@@ -465,10 +465,10 @@ def run(ctx, pid):
         if res is None:
             return rep.finish()
         witnesses(ctx, pid, K_MID3, rep)
-        n = replay_graph(ctx, pid, K_SMALL, rep, max_walks=1200, label="graph")
-        n += replay_graph(ctx, pid, K_CAP, rep, max_walks=300, label="graph_capacity")
+        n = replay_graph(ctx, pid, K_SMALL, rep, max_walks=1000, label="graph")
+        n += replay_graph(ctx, pid, K_CAP, rep, max_walks=200, label="graph_capacity")
         if pid == "C12":
-            n += replay_graph(ctx, pid, K_KS, rep, max_walks=250, label="graph_keyspace", prefer=_publish_after_shutdown_window)
+            n += replay_graph(ctx, pid, K_KS, rep, max_walks=200, label="graph_keyspace", prefer=_publish_after_shutdown_window)
         validate_recorded(ctx, pid, K_MID3, 150, rep)
         ctx.note("constants", {"tlc": name(K_MID), "witnesses": name(K_MID3), "replay": [name(K_SMALL), name(K_CAP)],
                                "traces": name(K_MID3)})
